@@ -445,6 +445,7 @@ def weave(txt, s, notes, canary=False):
     sig_lines = []
     has_contract = False
     inserts = []   # (offset, text)
+    attr_lines = []
     mask = mask_text(txt)
     fn_off, body_open = _fn_sig_parts(txt, mask)
     body_close = match_close(mask, body_open)
@@ -492,7 +493,10 @@ def weave(txt, s, notes, canary=False):
                     break
                 start = pos + 1
             if pos < 0:
-                raise ExtractError('@%s anchor lost in %s: `%s`' % (name, s.args[1], anc))
+                # a proof hint lost its anchor (the code changed shape): weave without it and let the verifier decide;
+                # check.py turns hint-dependent failures (asserts / loop invariants) of such a function into UNDECIDED
+                notes.add('LOST-ANCHOR', '@%s `%s`' % (name, anc))
+                continue
             if name == 'before':
                 ls = txt.rfind('\n', 0, pos) + 1
                 inserts.append((ls, body + '\n'))
@@ -514,6 +518,8 @@ def weave(txt, s, notes, canary=False):
             if k < 1 or k > len(loops):
                 raise ExtractError('@loopbody %d: function %s has %d loops' % (k, s.args[1], len(loops)))
             inserts.append((loops[k - 1][1] + 1, '\n' + body + '\n'))
+        elif name == 'attr':
+            attr_lines.append((arg + ' ' + body).strip())
         elif name == 'top':
             inserts.append((body_open + 1, '\n' + body + '\n'))
         elif name == 'subst':
@@ -569,6 +575,8 @@ def weave(txt, s, notes, canary=False):
         body_txt = body_txt[:off] + t + body_txt[off:]
         notes.add('W')
     out = body_txt[:fn_off] + new_sig + body_txt[body_open:]
+    if attr_lines:
+        out = '\n'.join(attr_lines) + '\n' + out
     if sig_lines:
         notes.add('W')
     return out, has_contract
